@@ -140,6 +140,7 @@ struct World {
   int val_copy_throw_at = 0;  // k-th Val copy throws (0 = never)
   int val_copies = 0;
   bool fault_injected = false;
+  bool alloc_fault = false;  // param alloc=1: operator new may fail on the connecting thread during the top-level connect
   AllocStats astats[4];
   // tracked values
   struct VRec { const void* addr; long id; uint8_t st; };
@@ -993,11 +994,18 @@ void run_expr(World* w) {
     { usim::np_scope np; w->ext_stop_end = seq(); }
   }
   bool connected = true;
+  if (w->alloc_fault) usim_alloc_fault_window(1);
   try {
     box->construct_with([&] { return unifex::connect(any_snd{w->nodes[w->root].impl}, R{w}); });
+  } catch (const std::bad_alloc&) {
+    connected = false;
+    usim::np_scope np;
+    w->fault_injected = true;
+    usim_probe("top-level connect: allocation failed");
   } catch (...) {
     connected = false;
   }
+  if (w->alloc_fault) usim_alloc_fault_window(0);
   if (connected) {
     { usim::np_scope np; w->root_start_seq = seq(); }
     unifex::start(**box);
@@ -1049,6 +1057,7 @@ void body_expr(void*) {
   }
   if (draw(3) == 0) usim_fault_rate(USIM_F_CAS_WEAK, 100);
   if (draw(4) == 0) usim_fault_rate(USIM_F_COND_SPURIOUS, 100);
+  if (usim_param_int("alloc", 0) && draw(2) == 0) { w->alloc_fault = true; usim_fault_rate(USIM_F_ALLOC, 60 + 60 * draw(4)); }
   {
     usim::np_scope np;
     char buf[900];
